@@ -7,6 +7,7 @@ from vf.values import SStr, Opaque, CatList, StackList
 from vf.contract import Contract, same
 from vf.world import LoopSpec, RowWise, defined_loop
 from vf.spec import spec_tensor
+from vf.lib import Sum
 from contracts.predict_c import make_model, OUTS
 
 
@@ -70,7 +71,8 @@ class SaturationMutagenesis(Contract):
     props = ('C09',)
 
     def configs(self):
-        return [dict(out=o, n_args=n, end=e) for o in ('tensor', 'tuple2') for n in ('none', 1) for e in ('nonneg', 'neg')]
+        return ([dict(out=o, n_args=n, end=e) for o in ('tensor', 'tuple2') for n in ('none', 1) for e in ('nonneg', 'neg')] +
+                [dict(out='tensor', n_args='none', end='nonneg', attr=m) for m in ('masked', 'hypothetical')])
 
     def make_args(self, cfg, A):
         na = 0 if cfg['n_args'] == 'none' else cfg['n_args']
@@ -79,8 +81,13 @@ class SaturationMutagenesis(Contract):
         args = None if cfg['n_args'] == 'none' else tuple(A.tensor('arg%d' % i, 2, 'real') for i in range(na))
         end = A.int('end')
         A.assume(end >= 0 if cfg['end'] == 'nonneg' else end < 0)
-        return [model, X], dict(args=args, start=A.int('start'), end=end, batch_size=A.int('batch_size', lo=1),
-                                raw_outputs=True, device='cpu')
+        kw = dict(args=args, start=A.int('start'), end=end, batch_size=A.int('batch_size', lo=1), raw_outputs=True, device='cpu')
+        if cfg.get('attr'):
+            rw = model.attrs['rowwise']
+            t = A.int('target')
+            A.assume(t >= 0, t < rw.trailing[0][0])
+            kw.update(raw_outputs=False, hypothetical=cfg['attr'] == 'hypothetical', target=t)
+        return [model, X], kw
 
     def window(self, a):
         return a.start, norm_end(a.end, a.X.shape[2])
@@ -107,6 +114,13 @@ class SaturationMutagenesis(Contract):
             outs.append(spec_tensor([N, A_, W] + list(rw.trailing[o]),
                                     lambda n, c, q, *t, o=o: rw.at(o, [mutant(row_of(X, n), c, s + q)] + [row_of(g, n) for g in args], t), 'real'))
         y_hat = outs[0] if rw.k is None else list(outs)
+        if cfg.get('attr'):
+            # the documented function of (y0, y_hat): centred difference at the target, masked by the
+            # observed character unless hypothetical
+            attr = AttributionScore.spec(y0, y_hat, a.target)
+            if cfg['attr'] == 'hypothetical':
+                return attr
+            return spec_tensor([N, A_, W], lambda n, c, q: X.elem(n, c, s + q) * attr.elem(n, c, q), 'real')
         return (y0, y_hat)
 
     def loops(self):
@@ -142,6 +156,47 @@ class SaturationMutagenesis(Contract):
         return {1: defined_loop({'y_hat': y_hat_def}, shapes={'y_hat_': y_hat__shape})}
 
 
+class AttributionScore(Contract):
+    """C09 (attribution): for an integer target t, attr[n, c, q] = d[n, c, q] - mean_c' d[n, c', q] with
+    d = y_hat[n, c, q, t] - y0[n, t], averaged over any further trailing output dimensions; the inputs are
+    not written."""
+    qualname = 'tangermeme.ism._attribution_score'
+    props = ('C09',)
+
+    def configs(self):
+        return [dict(rank=4), dict(rank=5)]
+
+    def make_args(self, cfg, A):
+        N, Ad, W, T = A.dim('N', 1), A.dim('A', 1), A.dim('W', 1), A.dim('T', 1)
+        extra = [A.dim('U', 1)] if cfg['rank'] == 5 else []
+        y0 = A.tensor('y0', 2 + len(extra), 'real', shape=[N, T] + extra)
+        y_hat = A.tensor('y_hat', 4 + len(extra), 'real', shape=[N, Ad, W, T] + extra)
+        t = A.int('target')
+        A.assume(t >= 0, t < T)
+        return [y0, y_hat, t], {}
+
+    @staticmethod
+    def spec(y0, y_hat, t):
+        Ad = y_hat.shape[1]
+        extra = list(y_hat.shape[4:])
+
+        def d(n, c, q, *u):
+            return y_hat.elem(n, c, q, t, *u) - y0.elem(n, t, *u)
+
+        def centred(n, c, q, *u):
+            return d(n, c, q, *u) - O.truediv(Sum(0, Ad, lambda c2: d(n, c2, q, *u), 'real'), Ad)
+
+        def elem(n, c, q):
+            if not extra:
+                return centred(n, c, q)
+            return O.truediv(Sum(0, extra[0], lambda u: centred(n, c, q, u), 'real'), extra[0])
+        return spec_tensor(list(y_hat.shape[:3]), elem, 'real')
+
+    def result(self, a, cfg):
+        return self.spec(a.y0, a.y_hat, a.target)
+
+
 def register(world):
     world.register(EditDistanceOne())
+    world.register(AttributionScore())
     world.register(SaturationMutagenesis())
